@@ -65,6 +65,7 @@ def _expected(Fn, Y, Lab, val):
 @st.composite
 def diagram_case(draw, max_cols=60):
     tc = draw(tables.table_case(max_rows=12, max_cols=max_cols, min_cols=2, with_cov=True))
+    tc["covscale"] = draw(st.sampled_from([1.0, 1.0, 1e3, 1e5]))  # some poles with a standard deviation of the order of the frequency itself
     return {"table": tc, "hide": draw(st.booleans()), "freqlim": draw(st.one_of(st.none(), st.tuples(st.floats(0, 5), st.floats(6, 30)).map(list))),
             "plab": [0.3, 0.5, 0.7, 0.5, 0.0, 1.0][(draw(st.integers(0, 2**20)) + tc["seed"] // 5) % 6], "which": ["function", "SSIcov", "SSIdat", "pLSCF"][(draw(st.integers(0, 2**20)) + tc["seed"] // 11) % 4],  # balanced across small runs
             "ordmin": draw(st.integers(0, 3))}
